@@ -1,6 +1,10 @@
 //! Group driver: runs the REAL kanidm code and records observed traces (ndjson) which TLC
 //! validates against the TLA+ specifications in /verif/spec. See /verif/DESIGN.md.
 use kvc::util::Opts;
+mod c01;
+mod c02;
+mod fmodel;
+mod schemadump;
 
 fn main() {
     let args: Vec<String> = std::env::args().collect();
@@ -10,8 +14,10 @@ fn main() {
     }
     let opts = Opts::parse(&args[2..]);
     let rc = match args[1].as_str() {
+        "c01" => c01::run(&opts),
+        "c02" => c02::run(&opts),
+        "schema" => schemadump::run(&opts),
         other => {
-            let _ = &opts;
             eprintln!("unknown subcommand {other}");
             2
         }
